@@ -363,3 +363,260 @@ Section Spec.
     apply String.eqb_eq in E; contradiction.
   Qed.
 End Spec.
+
+(* ------------------------------------------------------------------------------------------ *)
+(** * All schedules (DESIGN.md 4.3): the limiter as a monitor object of Conc.v *)
+From Verif Require Import Conc.
+
+Section Sched.
+  Variable maxNr : Z.
+  Variable interval : Z.
+  Variable whitelisted : string -> bool.
+
+  Local Notation inc := (inc maxNr interval whitelisted).
+  Local Notation run_incs := (run_incs maxNr interval whitelisted).
+  Local Notation run_ops := (run_ops maxNr interval whitelisted).
+  Local Notation apply_op := (apply_op maxNr interval whitelisted).
+
+  (** Local registers of one call: the result being assembled. *)
+  Definition lreg := option lret.
+
+  (** The critical section of each method as the sequence of its statements (micro-steps the
+      scheduler may interleave with the steps of other goroutines):
+      Inc   = reset test and reset (L95-101); Counters[ip]++ (L102); read back and verdict (L103-116)
+      Count = the map read;  EndTime = ResetTime.Add(Interval). *)
+  Definition mu_reset (now : Z) : micro lstate lreg := fun x => (fst x, maybe_reset interval (snd x) now).
+  Definition mu_bump (ip : string) : micro lstate lreg := fun x => (fst x, bump (snd x) ip).
+  Definition mu_verdict (ip : string) : micro lstate lreg :=
+    fun x => (Some (let '(c, m, ok) := verdict maxNr whitelisted (snd x) ip in RInc c m ok), snd x).
+  Definition mu_count (ip : string) : micro lstate lreg := fun x => (Some (RCount (count (snd x) ip)), snd x).
+  Definition mu_end : micro lstate lreg := fun x => (Some (REndTime (endTime interval (snd x))), snd x).
+
+  Definition l_body (o : lop) : list (micro lstate lreg) :=
+    match o with
+    | OInc now ip => [mu_reset now; mu_bump ip; mu_verdict ip]
+    | OCount ip => [mu_count ip]
+    | OEndTime => [mu_end]
+    end.
+
+  Definition l_loc0 (o : lop) : lreg := None.
+  Definition l_result (o : lop) (l : lreg) : lret := match l with Some r => r | None => RCount 0 end.
+
+  Local Notation m_apply := (apply lstate lop lret lreg l_loc0 l_body l_result).
+  Local Notation m_seq_run := (seq_run lstate lop lret lreg l_loc0 l_body l_result).
+
+  (** Running the statements of a method one after the other is the method of Limiter.v. *)
+  Lemma monitor_apply o s : m_apply o s = apply_op s o.
+  Proof.
+    destruct o as [now ip|ip|]; unfold apply, run_micros, Limiter.apply_op; cbn.
+    - unfold Limiter.inc. destruct (verdict maxNr whitelisted (bump (maybe_reset interval s now) ip) ip) as [[c m] ok].
+      reflexivity.
+    - reflexivity.
+    - reflexivity.
+  Qed.
+
+  Lemma monitor_seq_run : forall h s,
+    m_seq_run s h = (fst (run_ops s (map snd h)), combine (map fst h) (snd (run_ops s (map snd h)))).
+  Proof.
+    induction h as [|[t o] r IH]; intros s; [reflexivity|].
+    cbn [seq_run map fst snd Limiter.run_ops]. rewrite monitor_apply.
+    destruct (apply_op s o) as [s1 x]. rewrite IH.
+    destruct (run_ops s1 (map snd r)) as [s2 rs]. reflexivity.
+  Qed.
+
+  (** The Inc calls of an operation list and the Inc results of a result list. *)
+  Fixpoint inc_calls (ops : list lop) : list call :=
+    match ops with
+    | [] => []
+    | OInc now ip :: t => (now, ip) :: inc_calls t
+    | _ :: t => inc_calls t
+    end.
+
+  Fixpoint inc_rets (rs : list lret) : list (Z * Z * bool) :=
+    match rs with
+    | [] => []
+    | RInc c m ok :: t => (c, m, ok) :: inc_rets t
+    | _ :: t => inc_rets t
+    end.
+
+  (** Count and EndTime do not change the state: the Inc results of a mixed sequence are those
+      of its Inc calls alone. *)
+  Lemma run_ops_incs : forall ops s,
+    fst (run_ops s ops) = fst (run_incs s (inc_calls ops)) /\
+    inc_rets (snd (run_ops s ops)) = snd (run_incs s (inc_calls ops)).
+  Proof.
+    induction ops as [|o t IH]; intros s; [split; reflexivity|].
+    destruct o as [now ip|ip|]; cbn [Limiter.run_ops Limiter.apply_op inc_calls Limiter.run_incs].
+    - destruct (inc s now ip) as [s1 [[c m] ok]]. specialize (IH s1).
+      destruct (run_ops s1 t) as [s2 rs]. destruct (run_incs s1 (inc_calls t)) as [s3 rs3].
+      cbn [fst snd inc_rets] in *. destruct IH as [-> ->]. split; reflexivity.
+    - specialize (IH s). destruct (run_ops s t) as [s2 rs]. cbn [fst snd inc_rets] in *. exact IH.
+    - specialize (IH s). destruct (run_ops s t) as [s2 rs]. cbn [fst snd inc_rets] in *. exact IH.
+  Qed.
+
+  Lemma inc_calls_length ops : lenZ (inc_calls ops) <= lenZ ops.
+  Proof.
+    induction ops as [|o t IH]; [cbn; lia|]. destruct o; cbn [inc_calls]; rewrite ?lenZ_cons; lia.
+  Qed.
+
+  (** C20_all_schedules. For any number of goroutines with any programs of Inc/Count/EndTime
+      calls and any schedule (a list of goroutine ids; a goroutine that waits for the mutex
+      stutters) that lets all of them finish, there is an interleaving [h] of the programs such
+      that the final limiter state and everything that was returned to every goroutine are those
+      of the sequential run of [h]; and the Inc results along [h] are the ones C20_interval
+      prescribes for the epochs of [h]'s Inc calls. *)
+  Theorem limiter_all_schedules : forall (progs : list (list lop)) start sched,
+    let c := exec lstate lop lret lreg l_loc0 l_body l_result
+                  (init lstate lop lret lreg progs (newLimiter start)) sched in
+    finished lstate lop lret lreg c ->
+    exists h : list (nat * lop),
+      interleaving lop progs h /\
+      obj _ _ _ _ c = fst (run_ops (newLimiter start) (map snd h)) /\
+      (forall t th, nth_error (threads _ _ _ _ c) t = Some th ->
+         rets _ _ _ _ th = proj t (combine (map fst h) (snd (run_ops (newLimiter start) (map snd h))))) /\
+      (lenZ h < two63 ->
+         inc_rets (snd (run_ops (newLimiter start) (map snd h))) =
+         concat (map (epoch_outs maxNr whitelisted []) (epochs interval start (inc_calls (map snd h))))).
+  Proof.
+    intros progs start sched c F.
+    destruct (atomic_linearizable lstate lop lret lreg l_loc0 l_body l_result progs (newLimiter start) sched F)
+      as (h & I & O & R).
+    exists h. split; [exact I|]. rewrite monitor_seq_run in O, R. cbn [fst snd] in O, R.
+    split; [exact O|]. split; [exact R|].
+    intros B. destruct (run_ops_incs (map snd h) (newLimiter start)) as [_ ->].
+    apply limiter_interval. pose proof (inc_calls_length (map snd h)).
+    assert (E : lenZ (map snd h) = lenZ h) by (unfold lenZ; rewrite map_length; reflexivity).
+    rewrite E in H. eapply Z.le_lt_trans; [exact H|exact B].
+  Qed.
+
+  (** While goroutines are still running, what has been returned so far is a sequential run of
+      the completed calls (no result is ever handed out that a sequential limiter could not give). *)
+  Theorem limiter_all_schedules_prefix : forall (progs : list (list lop)) start sched,
+    let c := exec lstate lop lret lreg l_loc0 l_body l_result
+                  (init lstate lop lret lreg progs (newLimiter start)) sched in
+    exists h : list (nat * lop),
+      forall t th, nth_error (threads _ _ _ _ c) t = Some th ->
+        (exists rest, proj t h ++ rest = nth t progs []) /\
+        rets _ _ _ _ th = proj t (combine (map fst h) (snd (run_ops (newLimiter start) (map snd h)))).
+  Proof.
+    intros progs start sched c.
+    destruct (atomic_linearizable_prefix lstate lop lret lreg l_loc0 l_body l_result progs (newLimiter start) sched)
+      as (h & P & _).
+    exists h. intros t th E. destruct (P t th E) as (rest & Pr & R).
+    rewrite monitor_seq_run in R. cbn [snd] in R. split; eauto.
+  Qed.
+End Sched.
+
+(* ------------------------------------------------------------------------------------------ *)
+(** * Count returns the number of requests of the address in the current interval *)
+Section CountSpec.
+  Variable maxNr : Z.
+  Variable interval : Z.
+  Variable whitelisted : string -> bool.
+
+  Local Notation run_incs := (run_incs maxNr interval whitelisted).
+  Local Notation epochs := (epochs interval).
+
+  Lemma countZ_cons ip a seen : countZ a (ip :: seen) = (if String.eqb a ip then 1 else 0) + countZ a seen.
+  Proof.
+    destruct (String.eqb a ip) eqn:E.
+    - apply String.eqb_eq in E; subst. apply countZ_cons_same.
+    - rewrite countZ_cons_other; [lia|]. intros ->. rewrite String.eqb_refl in E; discriminate.
+  Qed.
+
+  Lemma run_incs_count : forall calls s seen,
+    repr s seen -> lenZ seen + lenZ calls < two63 ->
+    forall a, cget (ctrs (fst (run_incs s calls))) a =
+      (match epochs (resetTime s) calls with [_] => countZ a seen | _ => 0 end) +
+      countZ a (map snd (last (epochs (resetTime s) calls) [])).
+  Proof.
+    induction calls as [|[now ip] t IH]; intros s seen R B a.
+    - cbn [Limiter.run_incs LimiterProofs.epochs fst last map]. rewrite R, countZ_nil. lia.
+    - rewrite lenZ_cons in B. pose proof (lenZ_nonneg t) as Ht. pose proof (lenZ_nonneg seen) as Hs.
+      cbn [Limiter.run_incs LimiterProofs.epochs]. unfold Limiter.inc, Limiter.maybe_reset, Limiter.resets.
+      destruct (time_sub now (resetTime s) >? interval) eqn:E.
+      + destruct (bump_repr maxNr whitelisted (mkL now []) [] ip) as [R1 _].
+        { intros x; reflexivity. } { unfold two63; cbn; lia. }
+        specialize (IH (bump (mkL now []) ip) [ip] R1).
+        destruct (Limiter.run_incs maxNr interval whitelisted (bump (mkL now []) ip) t) as [s2 rs].
+        cbn [fst] in *. rewrite IH by (rewrite lenZ_cons, lenZ_nil; lia). cbn [bump resetTime].
+        pose proof (epochs_nonempty interval now t) as NE.
+        destruct (epochs now t) as [|e [|e2 r]]; [congruence| |].
+        * cbn [cons_head last map snd]. rewrite (countZ_cons ip a (map snd e)), (countZ_cons ip a []), countZ_nil. lia.
+        * cbn [cons_head]. reflexivity.
+      + destruct (bump_repr maxNr whitelisted s seen ip R) as [R1 _]; [lia|].
+        specialize (IH (bump s ip) (ip :: seen) R1).
+        destruct (Limiter.run_incs maxNr interval whitelisted (bump s ip) t) as [s2 rs].
+        cbn [fst] in *. rewrite IH by (rewrite lenZ_cons; lia). cbn [bump resetTime].
+        pose proof (epochs_nonempty interval (resetTime s) t) as NE.
+        destruct (epochs (resetTime s) t) as [|e [|e2 r]]; [congruence| |].
+        * cbn [cons_head last map snd]. rewrite (countZ_cons ip a (map snd e)), (countZ_cons ip a seen). lia.
+        * cbn [cons_head]. reflexivity.
+  Qed.
+
+  (** After any sequence of Inc calls on a new limiter, Count(a) is the number of calls of [a] in
+      the last epoch (no update is lost, none survives a reset). *)
+  Theorem limiter_count_final : forall start calls a,
+    lenZ calls < two63 ->
+    count (fst (run_incs (newLimiter start) calls)) a =
+    countZ a (map snd (last (epochs start calls) [])).
+  Proof.
+    intros start calls a B. unfold count.
+    rewrite (run_incs_count calls (newLimiter start) [] (repr_new start)) by (rewrite lenZ_nil; lia).
+    cbn [newLimiter resetTime]. rewrite countZ_nil.
+    destruct (epochs start calls) as [|e [|e2 r]]; lia.
+  Qed.
+
+  (** EndTime: the reset instant after a call sequence is given by the reset rule alone. *)
+  Fixpoint final_reset (rt : Z) (calls : list call) : Z :=
+    match calls with
+    | [] => rt
+    | (now, _) :: t => if time_sub now rt >? interval then final_reset now t else final_reset rt t
+    end.
+
+  Lemma run_incs_resetTime : forall calls s,
+    resetTime (fst (run_incs s calls)) = final_reset (resetTime s) calls.
+  Proof.
+    induction calls as [|[now ip] t IH]; intros s; [reflexivity|].
+    cbn [Limiter.run_incs final_reset]. unfold Limiter.inc, Limiter.maybe_reset, Limiter.resets.
+    destruct (time_sub now (resetTime s) >? interval) eqn:E.
+    - specialize (IH (bump (mkL now []) ip)).
+      destruct (Limiter.run_incs maxNr interval whitelisted (bump (mkL now []) ip) t) as [s2 rs]. exact IH.
+    - specialize (IH (bump s ip)).
+      destruct (Limiter.run_incs maxNr interval whitelisted (bump s ip) t) as [s2 rs]. exact IH.
+  Qed.
+
+  (** The reset instant is the start instant or the instant of a call that came more than
+      [interval] after the reset instant in force (never anything else, e.g. a mixture). *)
+  Lemma final_reset_cases : forall calls rt,
+    final_reset rt calls = rt \/
+    exists pre now ip post, calls = pre ++ (now, ip) :: post /\
+      time_sub now (final_reset rt pre) > interval /\ final_reset rt calls = final_reset now post.
+  Proof.
+    induction calls as [|[now ip] t IH]; intros rt; [left; reflexivity|].
+    cbn [final_reset]. destruct (time_sub now rt >? interval) eqn:E.
+    - right. exists [], now, ip, t. cbn [app final_reset]. split; [reflexivity|]. split; [lia|reflexivity].
+    - destruct (IH rt) as [H|(pre & n & i & post & -> & G & F)]; [left; exact H|].
+      right. exists ((now, ip) :: pre), n, i, post. cbn [app final_reset]. rewrite E. auto.
+  Qed.
+
+  Theorem limiter_endtime_final : forall start calls,
+    endTime interval (fst (run_incs (newLimiter start) calls)) = final_reset start calls + interval.
+  Proof. intros. unfold endTime. rewrite run_incs_resetTime. reflexivity. Qed.
+End CountSpec.
+
+(* ------------------------------------------------------------------------------------------ *)
+(** * The unlocked read of ResetTime in EndTime is a real race (witness schedule) *)
+Definition lim_inc_write : access := mkAccess "ResetTime" "IPRequestLimiter.Inc" true RHandler ["L:mux"].
+Definition lim_endtime_read_unlocked : access := mkAccess "ResetTime" "IPRequestLimiter.EndTime" false RHandler [].
+
+Theorem unlocked_endtime_races :
+  races multi_all lim_inc_write lim_endtime_read_unlocked = true /\
+  valid multi_all [lim_inc_write; lim_endtime_read_unlocked] (unordered_trace lim_inc_write lim_endtime_read_unlocked "mux") /\
+  ~ hb (unordered_trace lim_inc_write lim_endtime_read_unlocked "mux") 1 2.
+Proof.
+  split; [vm_compute; reflexivity|]. split.
+  - apply unordered_trace_valid; try reflexivity.
+    intros lk [<-|[]]. split; reflexivity.
+  - apply unordered_trace_not_hb.
+Qed.
